@@ -24,7 +24,9 @@ RULE = (
     "1-D up to 6 and random larger shapes) x both orders x masked-array / separate-mask call form x plain / "
     "pint-wrapped, the explicit mask written as bool / int / uint8 ndarray or nested list of bools / ints (plus a "
     "dedicated family of non-bool separate masks incl. larger fields), further mask arguments (None, FLEX, NONE, nomask) with and without extra kwargs; prepare with "
-    "flat / shaped / time-axis payloads on C and F ordered grids; all pairs of mask specifications (unset, FLEX, "
+    "flat / shaped / time-axis payloads on C and F ordered grids, also under infos that carry BOTH a fixed mask and a "
+    "declared CF missing_value / _FillValue with payload cells holding exactly that value (none / exactly M / strict "
+    "subset of M / one cell outside M / M plus one / random / all); all pairs of mask specifications (unset, FLEX, "
     "NONE, nomask, all-false, same physical mask, raw-equal bits, one-bit-different, full) x grid layouts (unset, "
     "NoGrid, uniform with axes_reversed / axes_increase combinations, cell and point data) through Info.accepts "
     "(both directions), masks_compatible and a real Output >> Input exchange (bare and via Composition.connect); "
@@ -247,6 +249,72 @@ def _gen_prepare(rng, shapes, per_shape):
                         im = rng.choice(["nomask", "flex", "none"])
                     cases.append({"k": "prepare", "shape": shape, "order": order, "form": form, "vals": _vals(rng, n),
                                   "own": own, "im": im, "grid": gridk, "quant": rng.random() < 0.4})
+    return cases
+
+
+MISSING_PATTERNS = ["none", "exactM", "subset", "outside", "Mplus1", "random", "all"]
+MISSING_KEYS = ["missing_value", "_FillValue", "both"]
+
+
+def _flag_cells(rng, bits, pattern):
+    """C-order positions (grid layout) of the cells that hold the declared missing value"""
+    n = len(bits)
+    M = [i for i in range(n) if bits[i]]
+    U = [i for i in range(n) if not bits[i]]
+    if pattern == "exactM":
+        return list(M)
+    if pattern == "subset":
+        return rng.sample(M, rng.randint(1, len(M) - 1)) if len(M) >= 2 else list(M[:1])
+    if pattern == "outside":
+        return [rng.choice(U)] if U else []
+    if pattern == "Mplus1":
+        return M + ([rng.choice(U)] if U else [])
+    if pattern == "random":
+        return [i for i in range(n) if rng.random() < 0.4]
+    if pattern == "all":
+        return list(range(n))
+    return []
+
+
+def _with_missing(rng, case, pattern, key=None, value=None):
+    """declare a CF missing value on the info and put exactly that value into the flagged cells of the payload"""
+    shape, n = case["shape"], _size(case["shape"])
+    im = case["im"]
+    bits = im["bits"] if _is_bits(im) else [False] * n
+    value = value if value is not None else rng.choice([-9999, -1, 0, 999])
+    cells = _flag_cells(rng, bits, pattern)
+    vals = [v if v != value else value + 12345 for v in case["vals"]]      # no accidental hits
+    cidx = _indices(shape, "C")
+    pos = {idx: k for k, idx in enumerate(_indices(shape, case["order"]))} if case["form"] == "flat" else None
+    for ci in cells:
+        vals[pos[cidx[ci]] if pos else ci] = value
+    return dict(case, vals=vals, missing={"key": key or rng.choice(MISSING_KEYS), "value": value,
+                                          "pattern": pattern, "cells": sorted(cells)})
+
+
+def _gen_prepare_missing(rng, shapes, per_shape):
+    """infos carrying BOTH a fixed mask and a declared missing_value / _FillValue; unmasked payloads in which
+    some cells hold exactly that value: the result must still carry exactly the info's mask"""
+    cases = []
+    j = 0
+    for shape in shapes:
+        n = _size(shape)
+        for _ in range(per_shape):
+            k = rng.randrange(1, 2 ** n - 1) if n > 1 else rng.randrange(2)
+            bits = _bits_of(k, n)
+            for pattern in MISSING_PATTERNS:
+                j += 1
+                order = "CF"[j % 2]
+                form = ("flat", "shaped", "timed")[(j // 2) % 3]
+                gridk = "cells" if (j % 5 or min(shape) < 2) else "points"
+                if j % 7 == 0 and form != "flat" and order == "C":
+                    gridk = "nogrid"
+                im = {"shape": shape, "bits": bits}
+                if j % 11 == 0:
+                    im = ["nomask", "flex", "none"][(j // 11) % 3]
+                base = {"k": "prepare", "shape": shape, "order": order, "form": form, "vals": _vals(rng, n),
+                        "own": None, "im": im, "grid": gridk, "quant": (j // 3) % 2 == 1}
+                cases.append(_with_missing(rng, base, pattern))
     return cases
 
 
@@ -499,6 +567,12 @@ def _gen_seq(rng, ncases):
             else:
                 ops.append(["accepts", rmask() if rng.random() < 0.7 else rng.choice(["unset", "flex", "none", "nomask"]),
                             rng.random() < 0.5])
+        if j % 3 == 1:  # the info also declares a CF missing value and payload cells hold exactly that value
+            mv = rng.choice([-9999, -1])
+            init["missing"] = {"key": rng.choice(MISSING_KEYS), "value": mv}
+            for op in ops:
+                if op[0] == "prepare" and rng.random() < 0.7:
+                    op[2] = [mv if rng.random() < 0.3 else v for v in op[2]]
         if j % 3 == 0:  # make sure the tail is a flat prepare after a change of the memory order
             cur_order = "C" if cur_order == "F" else "F"
             ops.append(["set_grid", cur_order, _seq_gridk(rng, shape)])
@@ -531,6 +605,16 @@ CORPUS = [
      "im": _M([3, 2], [1, 1, 0, 0, 0, 0]), "grid": "cells", "quant": False},
     {"k": "prepare", "shape": [2, 2, 2], "order": "F", "form": "flat", "vals": list(range(8)), "own": None,
      "im": _M([2, 2, 2], [1, 0, 0, 0, 0, 0, 1, 1]), "grid": "points", "quant": True},
+    # seeded mutant C18_k: declared missing value masks cells first, the fixed-mask step is then skipped
+    {"k": "prepare", "shape": [3, 2], "order": "C", "form": "shaped", "vals": [-9999, 1, 2, 3, 4, 5], "own": None,
+     "im": _M([3, 2], [1, 1, 0, 0, 0, 0]), "grid": "cells", "quant": False,
+     "missing": {"key": "missing_value", "value": -9999, "pattern": "subset", "cells": [0]}},
+    {"k": "prepare", "shape": [2, 2], "order": "F", "form": "flat", "vals": [0, 1, -1, 3], "own": None,
+     "im": _M([2, 2], [1, 0, 0, 0]), "grid": "cells", "quant": True,
+     "missing": {"key": "_FillValue", "value": -1, "pattern": "outside", "cells": [1]}},
+    {"k": "prepare", "shape": [2, 2], "order": "C", "form": "timed", "vals": [999, 999, 2, 999], "own": None,
+     "im": _M([2, 2], [1, 1, 0, 0]), "grid": "points", "quant": False,
+     "missing": {"key": "both", "value": 999, "pattern": "Mplus1", "cells": [0, 1, 3]}},
     # finding F11: fixed-mask consumer without grid, producer with a different mask of the same shape
     {"k": "exchange", "om": _M([2, 2], [0, 0, 0, 1]), "og": {"kind": "nogrid", "shape": [2, 2]},
      "im": _M([2, 2], [1, 0, 0, 0]), "ig": None, "dims": [2, 2], "via": "bare"},
@@ -579,6 +663,7 @@ def generate(rng, tier):
         cases += _gen_round_random(rng, 150)
         cases += _gen_round_nonbool(rng, 480)
         cases += _gen_prepare(rng, QUICK_SHAPES, 16)
+        cases += _gen_prepare_missing(rng, [sh for sh in QUICK_SHAPES if _size(sh) >= 2], 4)
         cases += _gen_accept(rng, 700)
         cases += _gen_accept_sweep([[2], [2, 2]])[::3]
         cases += _gen_seq(rng, 500)
@@ -589,6 +674,7 @@ def generate(rng, tier):
         cases += _gen_round_random(rng, 10000)
         cases += _gen_round_nonbool(rng, 6000)
         cases += _gen_prepare(rng, QUICK_SHAPES + THOROUGH_SHAPES, 40)
+        cases += _gen_prepare_missing(rng, [sh for sh in QUICK_SHAPES + THOROUGH_SHAPES if _size(sh) >= 2], 40)
         cases += _gen_accept(rng, 12000)
         cases += _gen_accept_sweep([[2], [3], [2, 2], [3, 2]])
         cases += _gen_seq(rng, 10000)
@@ -713,12 +799,22 @@ def _prepare_grid(c):
     return fm.UniformGrid(tuple(n + 1 for n in shape), order=order)
 
 
+def _missing_meta(ms):
+    """meta entries declaring a CF missing value"""
+    if not ms:
+        return {}
+    v = float(ms["value"])
+    if ms["key"] == "both":
+        return {"_FillValue": v, "missing_value": v}
+    return {ms["key"]: v}
+
+
 def _run_prepare(c):
     shape = tuple(c["shape"])
     g = _prepare_grid(c)
     if tuple(int(s) for s in g.data_shape) != shape:
         return {"harness_error": f"grid data_shape {g.data_shape} != {shape}"}
-    info = fm.Info(time=T(0), grid=g, units="m", mask=_py_mask(c["im"]))
+    info = fm.Info(time=T(0), grid=g, units="m", mask=_py_mask(c["im"]), **_missing_meta(c.get("missing")))
     pshape = {"flat": (_size(shape),), "shaped": shape, "timed": (1,) + shape}[c["form"]]
     p = np.array(c["vals"], dtype=np.float64).reshape(pshape)
     if c["own"] == "nomask":
@@ -837,14 +933,16 @@ def _run_seq(c):
 
     shape = c["shape"]
     cur = dict(c["init"])
-    info = fm.Info(time=T(0), grid=_seq_grid(shape, cur["order"], cur["gridk"]), units="m", mask=_py_mask(cur["mask"]))
+    meta = _missing_meta(cur.pop("missing", None))
+    info = fm.Info(time=T(0), grid=_seq_grid(shape, cur["order"], cur["gridk"]), units="m", mask=_py_mask(cur["mask"]),
+                   **meta)
     steps = []
     for op in c["ops"]:
         try:
             if op[0] == "prepare":
                 o = _prep_obs(shape, op[1], op[2], op[3], info)
                 fresh = fm.Info(time=T(0), grid=_seq_grid(shape, cur["order"], cur["gridk"]), units="m",
-                                mask=_py_mask(cur["mask"]))
+                                mask=_py_mask(cur["mask"]), **meta)
                 o["fresh"] = _prep_obs(shape, op[1], op[2], op[3], fresh)
                 steps.append(["prep", o])
             elif op[0] == "set_grid":
@@ -1073,7 +1171,10 @@ def _mon_prepare(c, o):
     if c["own"] is None:
         im = c["im"]
         if _is_bits(im) and o["mask"] != im["bits"]:
-            return f"prepare applied mask {o['mask']}, the info's fixed mask is {im['bits']}"
+            ms = c.get("missing")
+            extra = (f" (info declares {ms['key']}={ms['value']}; payload cells {ms.get('cells')} hold that value)"
+                     if ms else "")
+            return f"prepare applied mask {o['mask']}, the info's fixed mask is {im['bits']}{extra}"
         if im == "nomask" and o["mask"] != [False] * n:
             return f"prepare applied mask {o['mask']} under nomask"
         if im in ("flex", "none") and o["mask"] is not None:
@@ -1206,6 +1307,8 @@ def distribution(cases, obss):
     mforms = Counter(("own:" if c["own"] is not None else "arg:") + c.get("mform", "bool") for c in cases
                      if c["k"] == "round" and (isinstance(c["own"], list) or _is_bits(c["arg"])))
     pforms = Counter(c["form"] + "/" + c["order"] for c in cases if c["k"] == "prepare")
+    pmiss = Counter(c["missing"]["pattern"] + "/" + c["missing"]["key"] for c in cases
+                    if c["k"] == "prepare" and c.get("missing"))
     acc = Counter()
     for c, o in zip(cases, obss):
         if c["k"] == "accept" and "compatible" in o:
@@ -1213,7 +1316,7 @@ def distribution(cases, obss):
         if c["k"] == "exchange" and "res" in o:
             acc["exchange/" + o.get("via", "?") + ":" + o["res"][0]] += 1
     return {"kinds": dict(kinds), "ranks": dict(ranks), "orders": dict(orders), "round_forms": dict(forms), "explicit_mask_written_as": dict(mforms),
-            "prepare_forms": dict(pforms), "acceptance_outcomes": dict(acc)}
+            "prepare_forms": dict(pforms), "prepare_missing_value_patterns": dict(pmiss), "acceptance_outcomes": dict(acc)}
 
 
 def shrink_candidates(case):
